@@ -76,7 +76,11 @@ func cmdLoadDB(args []string) int {
 			// bring the model to the case's final state: mutating ops, unchecked
 			for _, op := range c.Ops {
 				switch op[0] {
-				case "set", "rm", "save", "rollback", "reopen", "reopenat", "load", "prune", "lvfo", "setnil", "savecs":
+				case "set", "rm", "save", "rollback", "reopen", "reopenat", "load", "prune", "lvfo", "setnil", "savecs",
+					"dvreload", "dvfrom", "wsave", "wprune", "wlvfo":
+					// (every state-changing operation the C01 generator can emit: one that is left
+					// out here leaves the model in another state than the image - a false alarm of
+					// this check met when dvreload joined the profile)
 					if op[0] == "reopen" && len(op) > 1 {
 						op = op[:1]
 					}
